@@ -251,6 +251,35 @@ theorem latest_value_counts_everything (bi : Nat) (batches : List (List TSample)
       o.value = some (Dbl.fdiv (Dbl.ofNat (sumOps (fedUpTo batches k))) iv) :=
   valueSpec_latest (value_is_prefix_rate bi batches hc t ht k outs hk o ho) hl
 
+/-- **A failing metrics store.** `Driver.post_process_samples` lets the store's error pass: the race is aborted.  What the
+    aborted race has written is, run by run, what the healthy race writes, the run hit by the fault being cut short
+    (a prefix of its records) and nothing coming after it.  Sections 1–3 hold for every record that was written. -/
+theorem aborted_race_reports_a_prefix (evs : List FEvent) (i : Nat) (recs : List (Nat × Out))
+    (h : (driverRunF [] [] evs)[i]? = some recs) :
+    ∃ full, (driverRun [] [] (evs.map healed)).2[i]? = some full ∧ recs <+: full :=
+  driverRunF_prefix evs [] [] i recs h
+
+/-- **Post-processing is not idempotent — a batch must never be handed to the calculator twice.**  If a batch `b` that
+    has been post-processed is put back and submitted again together with the next batch `nxt` (what a "retry with the next
+    batch" after a failed `flush()` would do), the calculator accounts for `ops(b)` more operations than were shipped, for
+    the rest of the task.  That is why the only sound reaction to a store failure after `calculate()` is to abort. -/
+theorem resubmission_double_counts (bi : Nat) (pre post : List (List TSample)) (b nxt : List TSample)
+    (hc : Computed (pre ++ [b, b ++ nxt] ++ post)) (t : TaskStats)
+    (ht : (run current bi none (pre ++ [b, b ++ nxt] ++ post)).1 = some t) :
+    t.total + sumOps t.unprocessed = sumOps (pre ++ [b, nxt] ++ post).flatten + sumOps b := by
+  rw [ops_conserved_sum bi _ hc t ht]
+  simp only [List.flatten_append, List.flatten_cons, List.flatten_nil, List.append_nil, sumOps_append]
+  omega
+
+/-- non-vacuity: the second request of `witness` re-submitted with the third: 50 operations accounted for, 40 shipped;
+    and a store that fails after the first record of the second run: one record of that run, nothing afterwards -/
+example : (run current 1 none [[wS (201/2) (1/2)], [wS (805/8) (5/8)], [wS (805/8) (5/8), wS (403/4) (3/4)], [wS 101 1]]).1.map
+      (fun t => t.total + sumOps t.unprocessed) = some 50 ∧
+    (driverRunF [] [] [.update [(7, wS (201/2) (1/2))], .postProcess, .update [(7, wS 101 1), (7, wS 102 2)],
+      .faultyRun (some 1), .update [(7, wS 103 3)], .postProcess]).map (fun c => c.map (fun ko => ko.2.value)) =
+      [[some 20], [some 20]] := by
+  decide +kernel
+
 /-- non-vacuity: two clients of task 7 (and a task 3) shipped worker by worker, post-processing runs in between, one of
     them with an empty buffer; the store gets 20/s, then 40/s for task 7 once the bucket is complete — the same values as
     `witness` in one piece — and one sample stays buffered -/
@@ -303,6 +332,21 @@ theorem supplied_throughput_end_to_end (bi : Nat) (batches : List (List (Timing 
   · intro b _
     have := (sortByAbs_perm (b.map (fun x => sampleOf x.1 x.2))).map (·.tput)
     simpa [List.map_map, Function.comp_def, sampleOf] using this
+
+/-- **Elapsed time is measured from the start of the task, whichever client's sample comes first.**  The executor reads
+    `total_start` before the ramp-up wait, so for every sample `absolute_time - time_period` — what the calculator takes as
+    the task's start when the sample happens to be the earliest of the first batch — is the wall-clock time at which the
+    client's executor started on the task, minus the span of that one request; the ramp-up wait does not enter. -/
+theorem task_start_independent_of_ramp_up (c : ReqClock) (n : Bool) :
+    (execTiming c n).abs - (execTiming c n).period = (c.epoch + c.totalStart) - (c.requestEnd - c.processingStart) := by
+  simp only [execTiming]; ring
+
+/-- with the start taken from sample `f`, the elapsed time of a sample `s` of any client that started on the task at the
+    same instant is the time from the task's start to `s`'s request, plus the span of `f`'s request -/
+theorem elapsed_since_task_start (f s : ReqClock) (hT : f.totalStart = s.totalStart) (hE : f.epoch = s.epoch) (n m : Bool) :
+    (execTiming s m).abs - ((execTiming f n).abs - (execTiming f n).period) =
+      (s.processingStart - s.totalStart) + (f.requestEnd - f.processingStart) := by
+  simp only [execTiming, hT, hE]; ring
 
 /-- non-vacuity: a polling runner that is idle between some polls reports 0, 250, 0; the store gets exactly 0, 250, 0 —
     in one batch and in two; a batch that *starts* with an idle poll is still passed through -/
